@@ -19,7 +19,7 @@ CLAIMS = {
     "C01": ("Lean 4 theorems over all configurations/histories: accepted approval => in-window registered set + valid positional signatures reaching threshold over the 4-fold digest; completeness; registry invariant by induction over call lists; digest binding (collision-or-equal); differential run of the real gateway vs compiled model with real ed25519 proofs",
             "Machine-checked proofs (for every hash function, verify predicate, configuration and call history) of soundness and completeness of approveMessages w.r.t. a declarative quorum spec, of the registry invariant over all histories, of digest binding, and that approvals write nothing before validation; the model is run against the real gateway crate on generated proofs (valid, boundary-weight, one-component-altered digests, misaligned, garbage) and the same spec predicates judge every implementation outcome.",
             GW_NOTE, "DESIGN.md §3 C01"),
-    "C02": ("Lean 4 theorems: per-step transition relation (none->approved->executed only), lifted by induction to all histories; validateMessage characterisation; at-most-one true validation per id over every history; message-hash binding; differential run + lifecycle judge on the real gateway",
+    "C02": ("Lean 4 theorems: per-step transition relation (none->approved->executed only), lifted by induction to all histories; validateMessage characterisation; at-most-one true validation per id over every history; message-hash binding; the life cycle also holds in the composed world (every operation of every schedule, any contract calling the gateway: lifecycle_in_the_whole_world); differential run + lifecycle judge on the real gateway",
             "Machine-checked proofs that every endpoint call moves each message entry only along non-existent -> approved -> executed, that existing entries are untouched by later batches (incl. duplicates and altered contents), that validateMessage returns true iff the entry is the approval binding caller/source/payload hash and then executes it, and that over every history at most one validation per id returns true; the real gateway is run against the model and judged by the same predicates.",
             GW_NOTE, "DESIGN.md §3 C02"),
     "C03": ("Lean 4 theorems: rotation effect (epoch+1, fresh hash, well-formed set <-> declarative wfSigners), non-operator latest+delay, operator any in-window set, out-of-window rejected for every command, registry entries permanent, operator changes only by operator/owner; differential run + judge on the real gateway",
@@ -67,8 +67,8 @@ ITS_NOTE = ("The ITS theorems are about the world-level model (Axelar/Model/ItsW
             "delivers them step by step), debug VM incl. ESDT system-contract stand-ins for issue / getTokenProperties chosen by the schedule.")
 
 CLAIMS.update({
-    "C04": ("Lean 4 theorems: a release of tokens by processInterchainTransfer (no data) implies a true validateMessage for exactly (source chain, id, source address, payload hash) addressed to the service, which executes the approval (gateway lifecycle theorems of C02 give at-most-once); execute refuses untrusted sources; unknown token id / malformed recipient / unknown message type fail; differential run of the real ITS+gateway+token manager vs the compiled model + Lean judge on every inbound execute",
-            "Machine-checked proofs for all states, callers and payloads of the gating of an inbound release on gateway validation and trusted source, and of the failure cases; at-most-once follows from the proved gateway life cycle (C02) because validation consumes the approval. The real contracts are run against the model on approved / unapproved / replayed / wrong-source / unknown-token / malformed messages, hub-wrapped and direct, and judged by the property (recipient balance delta = payload amount, message executed, replays fail).",
+    "C04": ("Lean 4 theorems: a release of tokens by processInterchainTransfer (no data) implies a true validateMessage for exactly (source chain, id, source address, payload hash) addressed to the service, which executes the approval; AT MOST ONCE OVER EVERY SCHEDULE: a release leaves the message executed at the end of its transaction, executed is absorbing under every operation of the world model (transactions to any contract, deliveries, callbacks: Proofs/GwHistory.step_life by induction over operation lists), and for an executed message the release step fails; execute refuses untrusted sources; unknown token id / malformed recipient / unknown message type fail; differential run of the real ITS+gateway+token manager vs the compiled model + Lean judge on every inbound execute",
+            "Machine-checked proofs for all states, callers and payloads of the gating of an inbound release on gateway validation and trusted source, and of the failure cases; at-most-once is proved over all histories of the composed world (no_second_release), not only of the gateway alone. The real contracts are run against the model on approved / unapproved / replayed / wrong-source / unknown-token / malformed messages, hub-wrapped and direct, and judged by the property (recipient balance delta = payload amount, message executed, replays fail).",
             ITS_NOTE, "DESIGN.md §3 C04"),
     "C05": ("Lean 4 theorems: get_transfer_and_gas_tokens returns exactly the three shapes of the property and conserves value (transfer + gas = attached); transmit refuses zero amount / empty destination / untrusted chain; the emitted payload is the ABI encoding of exactly (type, token id, sender, destination, amount, data) (round trip by C06/C07); differential run (all balances compared after every step) + Lean judge on every outbound transfer of the real ITS",
             "Machine-checked proofs of the payment split (all payment lists, all gas values), of the refusal cases and of the payload contents; conservation across sender / token manager / gas service / service is decided on the real contracts by comparing every account's balances with the model after each operation and by the judge (sender delta = payments, custody or burn = transfer amount, one contract_call event with the payload hash, gas forwarded with sender as refund address, service balances unchanged).",
@@ -76,22 +76,22 @@ CLAIMS.update({
     "C08": ("Lean 4 theorems: a locked (in-flight) message cannot start another delivery; exact shape of the success and failure callbacks; REFUTATION: if the token manager rejects the take-back (flow limit) the failure callback fails and the tokens stay in the service (finding F1), with the part that holds proved as _partial; differential run with execute / destination call / callback scheduled separately among other transactions + Lean judge on the real contracts",
             "Machine-checked proofs of the single-shot lock and of the callback effects for all states; the full-strength 'never left behind in the service' is false on the unchanged code (known finding F1: flow-limit rejection of the take-back, replayed on the real contracts from corpus/C08 on every run). The real ITS, gateway and token manager are driven through all three steps with other transactions (including second executes of the same message, flow-limit changes, pauses) in between and judged on deliveries, custody and message state.",
             ITS_NOTE, "DESIGN.md §3 C08, §4 F1"),
-    "C13": ("Lean 4 theorems over every trusted-address table and payload: get_execute_params unwraps only RECEIVE_FROM_HUB from the hub chain naming a hub-routed original chain and rejects direct messages from the hub chain; get_call_params sends to the trusted address, wraps for hub-routed chains to the hub's trusted address, refuses missing trust and the hub chain as destination; is_trusted_address characterisation; hub constants; differential run + judge on the real ITS",
+    "C13": ("Lean 4 theorems over every trusted-address table and payload: get_execute_params unwraps only RECEIVE_FROM_HUB from the hub chain naming a hub-routed original chain and rejects direct messages from the hub chain; get_call_params sends to the trusted address, wraps for hub-routed chains to the hub's trusted address, refuses missing trust and the hub chain as destination; is_trusted_address characterisation; hub constants; execute / route_message use exactly these decisions; OVER EVERY SCHEDULE the trusted table changes only through the owner endpoints called by the owner (frame of the whole dispatcher, Proofs/ItsFrame.call_allowed, lifted to all operations by ItsHistory.step_change); differential run + judge on the real ITS",
             "Machine-checked proofs of the complete decision logic of inbound and outbound routing for all tables, chains, addresses and payloads; the real service is run against the model on trusted / untrusted / removed chains, hub-routed and direct, wrapped and non-wrapped payloads, and judged by the routing rules on every accepted inbound message and every emitted gateway call.",
             ITS_NOTE, "DESIGN.md §3 C13"),
-    "C14": ("Lean 4 theorems: the three id derivations are the published hash shapes with the published prefixes (regenerated constants), depend only on (kind, chain-name hash, deployer, salt / token), bind their inputs (collision-or-equal), and are domain-separated between kinds; deploy_token_manager_raw refuses a token id that already has a manager and records exactly the manager created with the requested type/token/operator; init records its arguments; custom registration forbids the native type; differential run + judge on the real ITS",
+    "C14": ("Lean 4 theorems: the three id derivations are the published hash shapes with the published prefixes (regenerated constants), depend only on (kind, chain-name hash, deployer, salt / token), bind their inputs (collision-or-equal), and are domain-separated between kinds; deploy_token_manager_raw refuses a token id that already has a manager and records exactly the manager created with the requested type/token/operator; init records its arguments; custom registration forbids the native type; OVER EVERY SCHEDULE a bound token id keeps its manager (binding_is_forever) and the stored inputs of the derivations never change (ids_are_stable_over_histories), by a frame proof over the whole endpoint dispatcher and induction over operation lists; differential run + judge on the real ITS",
             "Machine-checked proofs (for every hash function) of determinism, binding and domain separation of token ids, and that a token id gets at most one manager which is never replaced; the real service is run against the model (executable Keccak-256) so every id and every manager address the implementation computes is compared, including registrations by different deployers with equal salts.",
             ITS_NOTE, "DESIGN.md §3 C14"),
     "C17": ("Lean 4 theorems: both getTokenProperties callbacks return the whole gas value to the original caller when the query failed or the token is not fungible; exact refund; REFUTATION: when the callback itself fails (hub / route removed in between, or payload refused) the gas value stays in the service (finding F2, two call sites), with the part that holds proved as _partial; differential run with the callbacks scheduled separately + Lean judge 'service holds nothing of the user value after the last step' on the real contracts",
             "Machine-checked proofs of the refund and forward branches of the two asynchronous flows that carry user EGLD, and proofs that on the unchanged code a failing callback strands that EGLD (known findings F2a/F2b, replayed on the real contracts from corpus/C17 on every run). All user operations of the real service are run to completion under generated schedules and the service's balances are compared with their values before the operation.",
             ITS_NOTE, "DESIGN.md §3 C17, §4 F2"),
-    "C18": ("Lean 4 theorems: a token manager's recorded token survives every endpoint call and every later issuance callback (after fix aeb366e); the issuance callback records exactly the returned identifier or nothing; step 1 of an inbound deploy message only reads the approval (gateway state unchanged) ; zero-supply deployment without minter, or with the service as minter, is refused; differential run with issue calls / callbacks scheduled separately + Lean judge on the real ITS and token manager",
+    "C18": ("Lean 4 theorems: a token manager's recorded token survives every endpoint call and every later issuance callback (after fix aeb366e); the issuance callback records exactly the returned identifier or nothing; step 1 of an inbound deploy message reads exactly the approval for its fields and leaves the gateway unchanged, step 2 consumes it, an executed message drives neither step, and executed is absorbing over every schedule (one_issuance_per_message); zero-supply deployment without minter, or with the service as minter, is refused; differential run with issue calls / callbacks scheduled separately + Lean judge on the real ITS and token manager",
             "Machine-checked proofs of 'never replaced' over a complete case analysis of the token-manager endpoints and its callback, of the two-step use of the gateway approval, and of the refusal cases; the two-issuances-in-flight defect found by this check (F4) was repaired in /repo (fix: aeb366e) and its witness corpus/C18 runs first on every run. The real contracts are driven through the multi-call deployment flows (inbound and local) with system-contract outcomes chosen by the schedule and judged on approvals consumed, tokens recorded, supply minted and roles handed over.",
             ITS_NOTE, "DESIGN.md §3 C18, §4 F4"),
     "C19": ("Lean 4 theorems: use_deploy_approval succeeds iff an approval is present for exactly (minter, token id, destination chain) and equals the hash of the requested destination minter, and then clears it (single use); approval-key binding (collision-or-equal); revoke clears only the caller's own key; differential run + Lean judge on approve / revoke / deployRemote…WithMinter of the real ITS",
             "Machine-checked proofs for all states of the exactness and single use of destination-minter approvals and of key binding; the real service is run against the model over approve / revoke / deploy sequences by minters, former minters, non-minters and the service address, with matching and non-matching chains and minters, and judged by the rules of the property.",
             ITS_NOTE, "DESIGN.md §3 C19"),
-    "C20": ("Lean 4 theorems: every pausable entry point of the model fails when paused (no state, no value, no events); sub-calls never touch the service's own storage; proof obligations over the table regenerated from the source on every run: every pausable endpoint reaches require_not_paused before any state change or external call, privileged endpoints carry only_owner / only_operator; differential run with pause / unpause interleaved + Lean judge on the real ITS",
+    "C20": ("Lean 4 theorems: while paused each of the ten pausable endpoints of the model's dispatcher fails for every caller / argument list / payment (call_paused) and the whole transaction leaves the world unchanged (paused_transaction_changes_nothing); owner operations need the owner, setFlowLimits needs the operator role; OVER EVERY SCHEDULE the pause flag and trusted table change only by the owner endpoints called by the owner; pause then unpause restores the storage; sub-calls never touch the service's own storage; proof obligations over the table regenerated from the source on every run: every pausable endpoint reaches require_not_paused before any state change or external call, privileged endpoints carry only_owner / only_operator; differential run with pause / unpause interleaved + Lean judge on the real ITS",
             "Machine-checked proofs of pause effectiveness for each pausable flow of the model plus proof obligations discharged over the endpoint table that tools/extract.py regenerates from interchain-token-service/src on every run (so moving or dropping a pause check breaks the build); two ungated flows found by this check (F5, F6) were repaired in /repo (fix: 7a3e60f, b8528bf). The real service is run against the model with pauses placed between the steps of multi-call flows and with non-owner / non-operator callers of the privileged operations.",
             ITS_NOTE, "DESIGN.md §3 C20, §4 F5/F6"),
 })
